@@ -531,3 +531,38 @@ def gen_big_history(rng, small_first=False):
     if rng.random() < 0.4:
         deletes = [big[i]["id"] for i in rng.sample(sorted(hot), min(len(hot), rng.randint(1, 5)))]
     return {"commits": commits, "deletes": deletes, "blocklimit": rng.choice([4, 128]), "storage": "ram"}
+
+
+def gen_staged_history(rng):
+    """Hostile workload for top-N searching: most documents hold the frequent words once (long, flat, multi-block
+    posting lists); a few STRONG documents (one or two words repeated 3..10 times) sit in an early cluster (they fill
+    the heap and raise the threshold), then a long weak stretch follows (whole blocks become skippable), and the
+    best documents come late (in blocks the optimisation is tempted to skip)."""
+    n = rng.randint(120, 420)
+    words = VOCAB[:4]
+    strong = set(rng.sample(range(0, min(12, n)), rng.randint(2, 5)))
+    late0 = rng.randint(n // 2, n - 5)
+    strong |= set(rng.sample(range(late0, n), rng.randint(1, 4)))
+    strong |= set(rng.sample(range(n), rng.randint(0, 4)))
+    docs = []
+    for i in range(n):
+        present = [w for w in words if rng.random() < (0.9 if w in words[:2] else 0.5)]
+        toks = list(present)
+        if i in strong and present:
+            for w in rng.sample(present, min(len(present), rng.randint(1, 2))):
+                toks += [w] * rng.randint(2, 9)
+        rng.shuffle(toks)
+        d = {"id": str(i), "t": " ".join(toks)}
+        if rng.random() < 0.5:
+            d["u"] = " ".join(rng.choice(words) for _ in range(rng.randint(1, 3)))
+        if rng.random() < 0.5:
+            d["k"] = rng.choice(KVOCAB)
+        docs.append(d)
+    segs = rng.choice([1, 1, 2, 3])
+    cuts = sorted(rng.sample(range(1, n), segs - 1)) if segs > 1 else []
+    commits, prev = [], 0
+    for c in cuts + [n]:
+        commits.append(docs[prev:c])
+        prev = c
+    deletes = [d["id"] for d in rng.sample(docs, rng.choice([0, 0, 3, 20]))]
+    return {"commits": commits, "deletes": deletes, "blocklimit": rng.choice([2, 4, 8, 16]), "storage": "ram"}
